@@ -175,9 +175,12 @@ def docScalar (op : String) (args : List ArgV) : Option Val :=
   -- "Return rounded values (nearest integer, subject to some rules) as real (vectorized)."   (ties: no rule named)
   | "round" => num1 (fun x => (nearest? x).map (fun r => .num (r : Rat))) args
   -- "Return rounded values (given numer of decimals) as real (vectorized)."
+  --  a negative whole number of decimals rounds to tens, hundreds, … (numpy.around): scale 1 / 10^|k|
   | "around" => num2 (fun x k =>
       if k.den = 1 ∧ 0 ≤ k.num then
         (nearest? (x * ipow 10 k.num.toNat)).map (fun r => .num ((r : Rat) / ipow 10 k.num.toNat))
+      else if k.den = 1 then
+        (nearest? (x * (1 / ipow 10 (-k.num).toNat))).map (fun r => .num ((r : Rat) / (1 / ipow 10 (-k.num).toNat)))
       else none) args
   -- "Return per row maximum of items and other (propogate missing, vectorized)."
   | "maximum" => propagate2 maxR args
